@@ -379,3 +379,65 @@ def c06_fuzz(ncases, per_case):
                 ops.append(dict(op="Verify", c=0, tok=tok))
             yield ops
     return gen
+
+
+# ------------------------------------------------------------------- C07
+def c07_fuzz(ncases, per_case):
+    """Random byte strings, random JSON and byte-mutated JWKS texts through every entry point.
+    Their JSON-ness is unknown to the generator (doc class "anyraw"): only 'returns, no sanitizer
+    report, no leak, every new item errored-with-message or usable' is judged."""
+    import json as _j
+    vias_new = ["create", "create_strn", "create_fromfile", "create_fromfp"]
+    vias_old = ["load", "load_strn", "fromfile", "fromfp"]
+    base_docs = [
+        '{"keys":[{"kty":"oct","k":"AAECAwQFBgcICQoLDA0ODxAREhMUFRYXGBkaGxwdHh8","alg":"HS256","kid":"a"},{"kty":"EC","crv":"P-256","x":"f83OJ3D2xF1Bg8vub9tLe1gHMzV76e8Tus9uPHvRVEU","y":"x_FEzRu9m36HLN_tue659LNpXW6pCyStikYjKIWI5a0"}]}',
+        '{"kty":"OKP","crv":"Ed25519","x":"11qYAYKxCrfVS_7TyWQHOg7hcvPapiMlrwIaaPcHURo","kid":"ed"}',
+        '{"kty":"RSA","n":"sXchDaQebHnPiGvyDOAT4saGEUetSyo9MKLOoWFsueri23bOdgWp4Dy1WlUzewbgBHod5pcM9H95GQRV3JDXboIRROSBigeC5yjU1hGzHHyXss8UDprecbAYxknTcQkhslANGRUZmdTOQ5qTRsLAt6BTYuyvVRdhS8exSZEy_c4gs_7svlJJQ4H9_NxsiIoLwAEk7-Q3UXERGYw_75IDrGA84-lA_-Ct4eTlXHBIY2EaV7t7LjJaynVJCpkv4LKjTTAumiGUIuQhrNhZLuF_RJLqHpM2kgWFLU7-VTdL1VbC2tejvcI2BlMkEpk1BzBZI0KQB0GaDWFLN-aEAw3vRw","e":"AQAB","alg":"RS256"}',
+    ]
+
+    def gen(seed):
+        rnd = random.Random(seed * 999331 + 7)
+
+        def rjson(d):
+            r = rnd.random()
+            if d <= 0 or r < 0.3:
+                return rnd.choice([0, 1, -1, 2**40, 1.5, True, None, "", "oct", "RSA", "EC", "OKP", "AQAB", "P-256", "Ed25519", "!!", "A" * rnd.choice([1, 5, 43, 342])])
+            if r < 0.7:
+                names = ["kty", "k", "n", "e", "d", "p", "q", "dp", "dq", "qi", "crv", "x", "y", "alg", "use", "key_ops", "kid", "keys", "zz"]
+                return {rnd.choice(names): rjson(d - 1) for _ in range(rnd.randrange(0, 6))}
+            return [rjson(d - 1) for _ in range(rnd.randrange(0, 4))]
+
+        for _ in range(ncases):
+            ops = []
+            live = False
+            for _ in range(per_case):
+                r = rnd.random()
+                if r < 0.3:
+                    n = rnd.choice([0, 1, 2, 5, 17, 64, 300]) if rnd.random() < 0.97 else 70000
+                    b = rnd.randbytes(n)
+                elif r < 0.6:
+                    b = _j.dumps(rjson(4)).encode()
+                else:
+                    b = bytearray(rnd.choice(base_docs).encode())
+                    for _ in range(rnd.choice([1, 1, 2, 4])):
+                        k = rnd.random()
+                        pos = rnd.randrange(0, len(b) + 1)
+                        if k < 0.4 and pos < len(b):
+                            b[pos] = rnd.choice([0x22, 0x7b, 0x7d, 0x5b, 0x5d, 0x2c, 0x3a, 0x5c, 0x00, 0xff, 0x41, 0x3d, 0x2d])
+                        elif k < 0.6 and pos < len(b):
+                            del b[pos]
+                        elif k < 0.8:
+                            b.insert(pos, rnd.randrange(0, 256))
+                        else:
+                            b = b[:pos]
+                    b = bytes(b)
+                via = rnd.choice(vias_old if live else vias_new)
+                ops.append(dict(op="Load", ring=0, via=via, doc="anyraw", keys=[], hex=b.hex()))
+                live = True
+                if rnd.random() < 0.1:
+                    ops.append(dict(op="FreeBad", ring=0))
+                if rnd.random() < 0.05:
+                    ops.append(dict(op="RingFree", ring=0))
+                    live = False
+            yield ops
+    return gen
